@@ -164,17 +164,17 @@ IMPL("impl<'a> Writer<'a>", raw='''
         ensures old(self).appended(final(self), crlf(), r)
     { unimplemented!() }
 ''')
-FN('new', props=['C02', 'C03', 'C04'], ret='w',
+FN('new', props=['C02', 'C03', 'C04', 'C18', 'C19'], ret='w',
    ensures=[('aux.Writer.new', 'w.fin() == final(output)@ && w.cap() == old(output)@.len() && w.0.pos == 0 && w.wf() && w.out() =~= Seq::<u8>::empty()')])
-FN('len', props=['C02', 'C03', 'C04'], ret='r',
+FN('len', props=['C02', 'C03', 'C04', 'C18', 'C19'], ret='r',
    requires=[('aux.Writer.len.wf', 'self.wf()')],
    ensures=[('aux.Writer.len', 'r == self.out().len() && r <= self.cap()')],
    head='proof { axiom_slice_len(self.0.inner); }')
-FN('available', props=['C02', 'C03', 'C04'], ret='r',
+FN('available', props=['C02', 'C03', 'C04', 'C18', 'C19'], ret='r',
    requires=[('aux.Writer.available.wf', 'self.wf()')],
    ensures=[('aux.Writer.available', 'r == self.cap() - self.out().len()')],
    head='proof { axiom_slice_len(self.0.inner); }')
-FN('try_write', props=['C02', 'C03', 'C04'], ret='success',
+FN('try_write', props=['C02', 'C03', 'C04', 'C18', 'C19'], ret='success',
    requires=[
        ('aux.try_write.wf', 'old(self).wf()'),
        # (the premise `state_eq` lets closures written inside loops pin their pre-state to ghost snapshots:
